@@ -43,7 +43,7 @@ def parse_tlc(out):
         pass
     gen, dist = (int(m.group(1)), int(m.group(2))) if m else (0, 0)
     ok = "Model checking completed. No error has been found." in out
-    viol = re.findall(r"Error: (Invariant \S+ is violated|Action property \S+ is violated|Temporal properties were violated|Deadlock reached)", out)
+    viol = re.findall(r"Error: (Invariant \S+ is violated|Action property \S+ is violated|Temporal propert(?:y \S+ was|ies were) violated|Deadlock reached)", out)
     return dict(generated=gen, distinct=dist, ok=ok, violated=viol)
 
 
